@@ -113,7 +113,9 @@ def write_read(recs, blocked, api, fobj='bytesio'):
         w.close()
     else:
         with mciipm.VbsWriter(f, blocked=blocked) as w:
-            w.write_many(recs)
+            # write_many takes "an iterable": a list, a generator, a map object, an iterator - by turns
+            k = (len(recs) + len(recs[0])) % 4
+            w.write_many(recs if k == 0 else (r for r in recs) if k == 1 else map(bytes, recs) if k == 2 else iter(recs))
     data = f.getvalue()
     back = list(mciipm.VbsReader(io.BytesIO(data), blocked=blocked))
     return data, back
